@@ -24,13 +24,14 @@ impl Clone for ContentEncoding { fn clone(&self) -> (r: Self) ensures r == *self
 impl Copy for ContentEncoding {}
 #[verifier::external_body] pub struct Tag { _p: u8 }
 #[verifier::external_body] pub struct TagsIter { _p: u8 }
-impl Tags { #[verifier::external_body] pub fn iter(&self) -> (r: TagsIter) { unimplemented!() } }
+impl TagsIter { pub uninterp spec fn src(&self) -> Tags; }
+impl Tags { #[verifier::external_body] pub fn iter(&self) -> (r: TagsIter) ensures r.src() == *self { unimplemented!() } }
 pub uninterp spec fn tags_encoding(t: Tags) -> Option<ContentEncoding>;
 pub uninterp spec fn content_decodes(c: Seq<char>, e: ContentEncoding) -> bool;
 impl ContentEncoding {
     // verified separately (unit encoding): Some only for an explicit, recognised encoding tag
     #[verifier::external_body]
-    pub fn from_tags(tags: TagsIter) -> (r: Option<ContentEncoding>) { unimplemented!() }
+    pub fn from_tags(tags: TagsIter) -> (r: Option<ContentEncoding>) ensures r == tags_encoding(tags.src()) { unimplemented!() }
     #[verifier::external_body]
     pub fn as_tag_value(&self) -> (r: &'static str) { unimplemented!() }
 }
